@@ -70,7 +70,8 @@ def c23ShowTp : C23.ModeTransport → String
 def c23ShowState (st : C23.State) : String :=
   if st.isEmpty then "-" else
   "&".intercalate (st.map fun (k, srv) =>
-    s!"{k}={c23ShowTp srv.transport}/" ++ ",".intercalate (srv.addrs.map fun (h, p) => s!"{showBytes h}:{p}"))
+    s!"{k}={c23ShowTp srv.transport}" ++ (if srv.addrs.isEmpty then "" else
+      "/" ++ ",".intercalate (srv.addrs.map fun (h, p) => s!"{showBytes h}:{p}")))
 
 def c23ShowOut : C23.Out → String
   | .listeners st => "L;" ++ c23ShowState st
